@@ -206,7 +206,9 @@ def frames_obligation(chk, A, prefix=""):
 
 
 PREV = r"Option::expect\(OutputValue::value\(Option::unwrap\(EvalContext::get\(ctx, ST\.0\.variable\)\)\), '[^']*'\)"
-STEP = re.compile(r"^(i64::saturating_add|i64::wrapping_add)\(%s, 1\)$|^AddWithOverflow\(%s, 1\)\.0$|^Add\(%s, 1\)$" % (PREV, PREV, PREV))
+# the step must not wrap: a body may rebind its own counter (`let i = 0x7FFF..;` to leave early), and `MAX + 1` wrapped to
+# `MIN` is below every bound — the loop would never end and yield rows no reading of the program prescribes
+STEP = re.compile(r"^i64::saturating_add\(%s, 1\)$" % PREV)
 
 
 PSB = "parser::stmt::<impl parser::Parser>::parse_stmt_block"
@@ -287,6 +289,8 @@ def run(chk, ctx):
     eqrules.require_clone(chk, P, ["stmt::DataEntry"], "literal entries (X/Z/C/Number) evaluate to themselves")
     from . import lexrules
     lexrules.spelling_rule(chk, P, ("Loop", "Repeat", "While", "Let", "End", "Bits", "LParen", "RParen", "Comma", "Semi", "Equal"))   # the constructs the statement names are spelled that way
+    from .iter_rules import plumbing_rule
+    plumbing_rule(chk, P, {"ParsedTestCase": ("stmts",), "TestCase": ("stmts",), "DataRowIteratorTestData": ("iter",)})   # the statements parsed are the statements run
     chk.explanation = ("C01 decided as the per-construct obligations of a structural induction (DESIGN.md section 5, C01) on the automaton extracted from the resumable interpreter: states are the variants of the dispatched state field, edges are the acyclic paths from a state's arm to the dispatch or a return, "
                        "with guards, ordered effects (push_frame / pop_frame / set / get / Expr::eval tagged with the origin of its expression / DataEntry::eval / reset_random_seed / slice iterator next / nested next_with_context), next state and exit shape; states are classified by their edges, never by name. "
                        "Obligations: 1 sequencing, 2 row, 3 let, 4 frame pairing, 5 bound evaluated once, 6 counter protocol, 7 zero-trip guard, 8 body, 9 while, 10 resetRandom; plus FramedMap discipline, the MSB-first bits expansion and the parser's repeat/loop/while desugaring. "
@@ -373,7 +377,7 @@ def run(chk, ctx):
         if good:
             v = lt[0][1]
             good = again[0]["effects"] == [("get", ("ctx", "ST.0.variable")), ("set", ("ctx", "ST.0.variable", v))] and leave[0]["effects"] == [("get", ("ctx", "ST.0.variable")), ("pop_frame", ("ctx",))] and again[0]["next"][1].endswith("{0: ST.0}")
-    chk.require(good, "AUT", "AUT:6:counter-protocol", "value = prev + 1; value < max => set(variable, value), next iteration; else pop_frame, back to fetch", "loop end edges: %s" % [(e["guards"], e["effects"], nxt(e)) for e in EN])
+    chk.require(good, "AUT", "AUT:6:counter-protocol", "value = prev.saturating_add(1); value < max => set(variable, value), next iteration; else pop_frame, back to fetch", "loop end edges: %s" % [(e["guards"], e["effects"], nxt(e)) for e in EN])
     # 8. body
     BS = [e for e in A.edges if role(e) == "body_start"]
     good = len(BS) == 1 and BS[0]["effects"] == [] and nxt(BS[0]) == "body_run" and re.fullmatch(r"StmtIteratorState::\w+\{inner_iterator: Box::new\(stmt::StmtIterator\{stmt_iter: \[T\]::iter\(ST\.0\.stmts\), inner_state: StmtIteratorState::(\w+)\{\}\}\), loop_state: ST\.0\}", BS[0]["next"][1]) is not None
